@@ -12,8 +12,10 @@ def run(tier, seed):
     cfg = "MC_Plot_q" if tier == "quick" else "MC_Plot_t"
     _res, g = ctx.model_check(cfg, required_actions=REQ)
     combos = [("dyadic", 1.0)] + ([("neg", 0.5), ("int", 3.0)] if tier == "thorough" else [("neg", 0.5)])
-    for pe, vs in combos:
-        ctx.replay(g, PlotAdapter(POS[pe], vs), {"all"}, label=f"{pe}/x{vs}")
+    for n, (pe, vs) in enumerate(combos):
+        ctx.replay(g, PlotAdapter(POS[pe], vs, overrides=n % 3), {"all"}, label=f"{pe}/x{vs}/label-overrides{n % 3}")
+    if len(combos) < 3:
+        ctx.replay(g, PlotAdapter(POS["dyadic"], 1.0, overrides=2), {"all"}, label="dyadic/x1.0/label-overrides2")
     ctx.assumptions = ["marks are extracted from matplotlib artists (patches, lines, collections, images, labels), plotly traces and captured "
                        "stdout; rendering of artists to pixels is trusted to the backend; colours are compared only for monotonicity in the value",
                        "option combinations a backend does not offer (errors in plotly/ascii, density in ascii, image of irregular bins) are skipped"]
